@@ -13,6 +13,7 @@ import sc3.base.builtins as bi
 from sc3.base.functions import Function
 from sc3.base.stream import Routine, stream
 from sc3.seq.patterns.listpatterns import Pseq
+from sc3.seq.patterns.filterpatterns import Pn
 from sc3.synth.ugen import ChannelList
 from sc3.base.operand import Operand
 from sc3.seq.event import Rest
@@ -104,6 +105,47 @@ def main():
         u = rng.choice(['ramp', 'squared', 'sign', 'frac'])
         check('builtin_form_redispatches', 'lift_unop_hom', 'bi.%s(Operand(%s)).value(%d)' % (u, fs, x),
               lambda: getattr(bi, u)(Operand(f)).value(x), getattr(bi, u)(fx))
+        # operator patterns / streams EMBEDDED in an enclosing pattern (Punop/Pnarop.__embed__,
+        # Pattern.__embed__, Stream.__embed__): element i = op(next(p), next(lo), next(hi)), every operand
+        # advanced once per element, whatever its kind (number, Pattern, Routine, pattern stream)
+        pa = [rng.randint(-6, 6) for _ in range(rng.randint(1, 5))]
+        pl = [rng.randint(-9, 0) for _ in range(rng.randint(2, 5))]
+        ph = [rng.randint(1, 9) for _ in range(rng.randint(2, 5))]
+        kinds = {'number': lambda l: (l[0], [l[0]] * 9, repr(l[0])),
+                 'pattern': lambda l: (Pseq(l), l, 'Pseq(%s)' % l),
+                 'routine': lambda l: (routine_over(l), l, 'routine_over(%s)' % l),
+                 'pattern_stream': lambda l: (stream(Pseq(l)), l, 'stream(Pseq(%s))' % l)}
+        klo, khi = rng.choice(sorted(kinds)), rng.choice(sorted(kinds))
+        wrap = rng.choice([('Pseq([%s])', lambda c: Pseq([c])), ('Pn(%s, 1)', lambda c: Pn(c, 1)),
+                           ('Pseq([Pseq([%s])])', lambda c: Pseq([Pseq([c])]))])
+        first = rng.choice([('Pseq(%s)', Pseq), ('routine_over(%s)', routine_over)])
+
+        def nar_thunk():
+            lo_o, _, _ = kinds[klo](pl)
+            hi_o, _, _ = kinds[khi](ph)
+            return list(stream(wrap[1](getattr(first[1](pa), n3)(lo_o, hi_o))))
+        _, lo_v, lo_t = kinds[klo](pl)
+        _, hi_v, hi_t = kinds[khi](ph)
+        check('embedded_narop_elementwise', 'embedded_narop_numbers',
+              'list(stream(' + wrap[0] % ('%s.%s(%s, %s)' % (first[0] % pa, n3, lo_t, hi_t)) + '))',
+              nar_thunk, [op3(a, l, h) for a, l, h in zip(pa, lo_v, hi_v)])
+        kb = rng.choice(sorted(kinds))
+
+        def bin_thunk():
+            b_o, _, _ = kinds[kb](lb or [1])
+            return list(stream(wrap[1](op(first[1](pa), b_o))))
+        _, b_v, b_t = kinds[kb](lb or [1])
+        if name not in ('//', 'bi.mod') or 0 not in b_v:
+            check('embedded_binop_elementwise', 'embedded_binop',
+                  'list(stream(' + wrap[0] % ('(%s %s %s)' % (first[0] % pa, name, b_t)) + '))',
+                  bin_thunk, [op(a, b) for a, b in zip(pa, b_v)])
+        check('embedded_unop_elementwise', 'embedded_unop', 'list(stream(' + wrap[0] % ('-%s' % (first[0] % pa)) + '))',
+              lambda: list(stream(wrap[1](-first[1](pa)))), [-a for a in pa])
+        # __embed__ path = __stream__ path
+        check('embed_path_equals_stream_path', 'embed_eq_stream',
+              'list(stream(Pseq([c]))) == list(stream(c)) for c = Pseq(%s).%s(routine_over(%s), Pseq(%s))' % (pa, n3, pl, ph),
+              lambda: list(stream(Pseq([getattr(Pseq(pa), n3)(routine_over(pl), Pseq(ph))]))),
+              list(stream(getattr(Pseq(pa), n3)(routine_over(pl), Pseq(ph)))))
     # keep one (the first) example per law
     seen, out = set(), []
     for b in bad:
